@@ -9,6 +9,16 @@ structure DS where
   g : Graph := []
   st : St := St.init
 
+def parseVal? : Char → Option Val
+  | '0' => some .obj
+  | '1' => some .pyNone
+  | '2' => some .zero
+  | '3' => some .emptyStr
+  | '4' => some .emptyList
+  | '5' => some .pyFalse
+  | _ => none
+
+/-- `caf:deps` or `cafv:deps` (v: the value the factory returns; absent = an ordinary object) -/
 def parseRes? (s : String) : Option Res :=
   match s.splitOn ":" with
   | [flags, deps] =>
@@ -18,6 +28,12 @@ def parseRes? (s : String) : Option Res :=
       let a ← parseBool? a.toString
       let f ← parseBool? f.toString
       some { cached := c, isAsync := a, fails := f, deps := ds }
+    | [c, a, f, v], some ds => do
+      let c ← parseBool? c.toString
+      let a ← parseBool? a.toString
+      let f ← parseBool? f.toString
+      let v ← parseVal? v
+      some { cached := c, isAsync := a, fails := f, deps := ds, val := v }
     | _, _ => none
   | _ => none
 
@@ -26,24 +42,45 @@ def parseGraph? (s : String) : Option Graph :=
 
 def dots (l : List Nat) : String := ".".intercalate (l.map toString)
 
-def showOutcome : Outcome → String
-  | .ok objs => "ok:" ++ dots objs
+/-- What an observer holding the injected value sees of object `obj` of resource `rid`:
+its identity when every factory call returns a new object, otherwise the value itself
+(`None`, `0`, `""`, `False` are interned: all creations are the same object). -/
+def showObj (g : Graph) (rid obj : Nat) : String :=
+  match valueOf g rid with
+  | .obj => toString obj
+  | .emptyList => toString obj
+  | .pyNone => "N"
+  | .zero => "Z"
+  | .emptyStr => "E"
+  | .pyFalse => "F"
+
+/-- objects `objs` injected for the resources `rids`, position by position -/
+def showObjs (g : Graph) : List Nat → List Nat → List String
+  | r :: rs, o :: os => showObj g r o :: showObjs g rs os
+  | [], os => os.map toString
+  | _, [] => []
+
+def showOutcome (g : Graph) (reqs : List Nat) : Outcome → String
+  | .ok objs => "ok:" ++ ".".intercalate (showObjs g reqs objs)
   | .cycle ch => "cycle:" ++ dots ch
   | .failed r => "failed:" ++ toString r
   | .badRef r => "badref:" ++ toString r
 
-def showEv : Ev → Option String
-  | .call t r o a => some s!"call:{t}:{r}:{o}:{dots a}"
+def showEv (g : Graph) (tasks : List Task) : Ev → Option String
+  | .call t r o a =>
+    let deps := (g[r]?.map (·.deps)).getD []
+    some s!"call:{t}:{r}:{o}:{".".intercalate (showObjs g deps a)}"
   | .made t r o => some s!"made:{t}:{r}:{o}"
   | .raised t r o => some s!"raised:{t}:{r}:{o}"
   | .deliver _ _ _ => none
-  | .fin t o => some s!"fin:{t}:{showOutcome o}"
+  | .fin t o => some s!"fin:{t}:{showOutcome g ((tasks[t]?.map (·.reqs)).getD []) o}"
 
 /-- a dict printed with sorted keys: for every key below `n`, its first binding -/
-def showDict (n : Nat) (d : List (Nat × Nat)) : String :=
+def showDict (g : Graph) (d : List (Nat × Nat)) : String :=
+  let n := g.length
   let keys := (List.range n).filter fun k => (d.lookup k).isSome
   let extra := (d.map Prod.fst).filter fun k => decide (n ≤ k)
-  ",".intercalate ((keys ++ extra.eraseDups).map fun k => s!"{k}:{(d.lookup k).getD 0}")
+  ",".intercalate ((keys ++ extra.eraseDups).map fun k => s!"{k}:{showObj g k ((d.lookup k).getD 0)}")
 
 def showPhase (k : Task) : String :=
   match k.phase with
@@ -55,13 +92,13 @@ def showPhase (k : Task) : String :=
     | f :: _ => if f.waiting.isSome then "S" else "A"
     | [] => "A"
 
-def showState (n : Nat) (s : St) : String :=
-  s!"rs={dots s.resolving} d={s.depth} sc={showDict n s.scache} res={showDict n s.resources} lk={if s.lock.isSome then 1 else 0} ph={"".intercalate (s.tasks.map showPhase)}"
+def showState (g : Graph) (s : St) : String :=
+  s!"rs={dots s.resolving} d={s.depth} sc={showDict g s.scache} res={showDict g s.resources} lk={if s.lock.isSome then 1 else 0} ph={"".intercalate (s.tasks.map showPhase)}"
 
 def report (d : DS) (old : St) (s : St) : DS × String :=
   let newEvs := (s.log.take (s.log.length - old.log.length)).reverse
-  let evs := " ".intercalate (newEvs.filterMap showEv)
-  ({ d with st := s }, evs ++ " | " ++ showState d.g.length s)
+  let evs := " ".intercalate (newEvs.filterMap (showEv d.g s.tasks))
+  ({ d with st := s }, evs ++ " | " ++ showState d.g s)
 
 def fuel : Nat := 1000000
 
